@@ -139,11 +139,18 @@ func cbRandBytes(rng *rand.Rand, n int) []byte {
 	return b
 }
 
-// cbText: printable text of n bytes that does not end in "\n"
+// cbText: printable text of n bytes; one in six ends in a line feed (servers send messages with and without;
+// a reader that strips it must be the one the documented normalisation names, and strip exactly one)
 func cbText(rng *rand.Rand, n int) []byte {
 	b := make([]byte, n)
 	for i := range b {
 		b[i] = byte(32 + rng.Intn(95))
+	}
+	if n > 0 && rng.Intn(6) == 0 {
+		b[n-1] = '\n'
+		if n > 1 && rng.Intn(3) == 0 {
+			b[n-2] = '\n'
+		}
 	}
 	return b
 }
